@@ -249,7 +249,6 @@ DerivedClock::DerivedClock(Clock *parentClock)
 	
 	m_resetName = m_parentClock->getResetName();
 	m_triggerEvent = m_parentClock->getTriggerEvent();
-	m_phaseSynchronousWithParent = m_parentClock->getPhaseSynchronousWithParent();
 
 	m_registerAttributes = m_parentClock->getRegAttribs();
 	m_parentClock->addDerivedClock(this);
